@@ -343,6 +343,8 @@ fn gen_history(tape: Vec<u8>) -> HistCase {
 
 fn judge_history(c: &HistCase, cls: &mut Classifier) -> Verdict {
     let mut distinct = std::collections::BTreeSet::new();
+    // prelude (result ignored): replaces whatever a single-slot memo holds from an earlier case on this thread
+    let _ = seed_of("abandon abandon abandon abandon abandon abandon abandon abandon abandon abandon abandon about", "prelude");
     for (i, (phrase, pass)) in c.steps.iter().enumerate() {
         let Ok(entropy) = bip39::decode_phrase(phrase) else {
             return fail("valid phrase", phrase.clone(), "C02 history must hold valid phrases");
